@@ -633,7 +633,15 @@ class CancelScope(BaseCancelScope):
         Restart the cancellation effort in the closest directly cancelled parent scope.
 
         """
-        scope = self._parent_scope
+        self._restart_cancellation(self._parent_scope)
+
+    @staticmethod
+    def _restart_cancellation(scope: CancelScope | None) -> None:
+        """
+        Restart the cancellation effort in the closest directly cancelled scope visible
+        from the given scope (inclusive), unless it's already in progress there.
+
+        """
         while scope is not None:
             if scope._cancel_called:
                 if scope._cancel_handle is None:
@@ -910,6 +918,10 @@ class TaskGroup(abc.TaskGroup):
         )
         self.cancel_scope._tasks.add(task)
         self._tasks.add(task)
+
+        # If the scope has already been cancelled but no tasks were left to cancel, the
+        # cancellation effort must be restarted for the new task
+        CancelScope._restart_cancellation(self.cancel_scope)
         if sys.version_info >= (3, 14) and self.cancel_scope._host_task is not None:
             asyncio.future_add_to_awaited_by(task, self.cancel_scope._host_task)
 
@@ -2675,6 +2687,7 @@ class AsyncIOBackend(AsyncBackend):
                 task = cast(asyncio.Task, current_task())
                 _task_states[task] = TaskState(None, scope)
                 scope._tasks.add(task)
+                CancelScope._restart_cancellation(scope)
             try:
                 return await func(*args)
             except CancelledError as exc:
